@@ -657,8 +657,8 @@ def worker(job, outdir):
     """forked: run the job, write <id>.json, exit"""
     path = os.path.join(outdir, f"{job['id']}.json")
     tracefile = open(os.path.join(outdir, f"{job['id']}.trace"), "w")
-    wall = job.get("wall", 120)
-    faulthandler.dump_traceback_later(max(1, wall - 4), file=tracefile, exit=False)
+    # the server sends SIGUSR1 just before it kills a worker that used up its budget: the stack at that moment
+    faulthandler.register(signal.SIGUSR1, file=tracefile, all_threads=True)
     try:
         import numpy as np
         import torch
@@ -667,12 +667,21 @@ def worker(job, outdir):
         res = run_one(job, outdir)
     except BaseException as e:
         res = {"id": job["id"], "status": "harness-error", "exc_type": err(e), "exc_msg": traceback.format_exc()[-1500:]}
-    faulthandler.cancel_dump_traceback_later()
     with open(path + ".tmp", "w") as fh:
         json.dump(res, fh, default=str)
     os.replace(path + ".tmp", path)
     sys.stdout.flush()
     os._exit(0)
+
+
+def cpu_seconds(pid):
+    """user + system CPU time of one process (load-independent measure of how long a run has been working)"""
+    try:
+        with open(f"/proc/{pid}/stat") as fh:
+            f = fh.read().rsplit(")", 1)[1].split()
+        return (int(f[11]) + int(f[12])) / os.sysconf("SC_CLK_TCK")
+    except Exception:
+        return 0.0
 
 
 def run_server(job):
@@ -705,8 +714,15 @@ def run_server(job):
         for pid in list(running):
             j, st = running[pid]
             done, _ = os.waitpid(pid, os.WNOHANG)
+            # the budget `wall` is counted in CPU seconds of the worker, so that a loaded machine does not turn a slow
+            # run into a `timeout`; a worker that burns no CPU (deadlock) is stopped after 4 x the budget of wall clock
             wall = j.get("wall", 120)
-            if done == 0 and time.time() - st > wall:
+            if done == 0 and (cpu_seconds(pid) > wall or time.time() - st > 4 * wall):
+                try:
+                    os.kill(pid, signal.SIGUSR1)
+                    time.sleep(0.4)
+                except Exception:
+                    pass
                 try:
                     os.killpg(pid, signal.SIGKILL)
                 except Exception:
